@@ -90,13 +90,32 @@ def run(ctx):
     RT = "C08.agree.trunc-endian"
 
     def trunc():
+        from .. import bits as B
         g = ctx.hir(FD + "::get_calculated_checksum")
         pv = hq.Canon(g, inline=True, max_depth=5, force=True)
         s = pv(hq.tail_expr(g["body"]))
-        pre, suf = "core::option::Option::Some((core::hash::Hasher::finish(", ".decoder_scratch.buffer.hash) as u32))"
-        mid = s[len(pre):-len(suf)] if s.startswith(pre) and s.endswith(suf) else None
-        ok = mid is not None and not any(op in mid for op in (" >> ", " << ", " & ", " | ", " + ", " - ", " ^ ")) and mid.count("(") == mid.count(")")
-        ctx.check(ok, RT, "decoder::low-32-bits", g["file"], "calculated checksum = low 32 bits of the decoder's hasher", observed=s)
+
+        def digest_source(want_recv_suffix, canon_):
+            def src(n):
+                n = hq.peel(n)
+                if n.get("k") == "MethodCall" and n["name"] == "finish" and (n.get("callee") or "").endswith("hash::Hasher::finish") and \
+                        canon_(n["recv"]).endswith(want_recv_suffix):
+                    return B.src_bits("digest", 64)
+                return None
+            return src
+        # bit level: whatever the spelling (`as u32`, a mask then a cast, ..) the value is digest bits 0..31 in order
+        t = hq.peel(hq.tail_expr(g["body"]))
+        val = hq.peel(t["args"][0]) if t.get("k") == "Call" and H.strip_generics(H.callee(t) or "").endswith("Option::Some") and t["args"] else None
+        ok = False
+        obs = s
+        if val is not None:
+            try:
+                bits_ = B.resize(B.Eval(g, digest_source(".decoder_scratch.buffer.hash", pv)).ev(val), 32)
+                ok = val.get("ty") == "u32" and bits_ == [("s", "digest", i) for i in range(32)]
+                obs = B.describe(bits_)
+            except B.Unsupported as e:
+                obs = "not evaluable: %s (%s)" % (e, s[:120])
+        ctx.check(ok, RT, "decoder::low-32-bits", g["file"], "calculated checksum = low 32 bits of the decoder's hasher", observed=obs)
         n = 0
         for fn in (FD + "::decode_blocks", FD + "::decode_from_to"):
             b = ctx.hir(fn)
@@ -122,8 +141,37 @@ def run(ctx):
         wa = [x for x in hq.find(c["body"], lambda x: x.get("k") == "MethodCall" and x["name"] == "write_all")]
         wa.sort(key=lambda x: x["sp"][0])
         last = pv(wa[-1]["args"][0]) if wa else ""
-        ok = last == "core::num::to_le_bytes((core::hash::Hasher::finish(self.hasher) as u32))"
-        ctx.check(ok, RT, "compressor::trailer", c["file"], "trailer = (finish() as u32).to_le_bytes()", observed=last)
+        # the bytes written: little-endian bytes of the digest's low 32 bits — `(d as u32).to_le_bytes()` or
+        # `d.to_le_bytes()[..4]` alike (byte i of to_le_bytes() is bits 8i..8i+7)
+        ok = False
+        obs = last
+        if wa:
+            a = hq.peel(wa[-1]["args"][0])
+            while a.get("k") == "AddrOf":
+                a = hq.peel(a["e"])
+            nbytes = None
+            if a.get("k") == "Index":
+                rp = hq.range_parts(a["idx"])
+                if rp is not None and rp[0] is None and rp[1] is not None and not rp[2] and H.lit_val(rp[1]) is not None:
+                    nbytes = H.lit_val(rp[1])
+                a = hq.peel(a["e"])
+            # through a local holding the byte array
+            for _ in range(3):
+                if a.get("k") == "Local":
+                    d_ = pv.defs.get(a["lid"])
+                    a = hq.peel(d_[1]) if d_ and d_[0] == "let" and not d_[2] else a
+            if a.get("k") == "MethodCall" and a["name"] == "to_le_bytes" and (H.callee(a) or "").startswith("core::num::"):
+                try:
+                    bits_ = B.Eval(c, digest_source("self.hasher", pv)).ev(a["recv"])
+                    width = {"u32": 32, "u64": 64}.get(a["recv"].get("ty"), len(bits_))
+                    bits_ = B.resize(bits_, width)
+                    if nbytes is None:
+                        nbytes = width // 8
+                    ok = nbytes == 4 and bits_[:32] == [("s", "digest", i) for i in range(32)]
+                    obs = {"bytes": nbytes, "bits": B.describe(bits_[:32])}
+                except B.Unsupported as e:
+                    obs = "not evaluable: %s (%s)" % (e, last[:120])
+        ctx.check(ok, RT, "compressor::trailer", c["file"], "trailer = the four little-endian bytes of the digest's low 32 bits", observed=obs)
         loops = [x for x in hq.find(c["body"], lambda x: x.get("k") == "Loop")]
         outer = min(loops, key=lambda x: x["sp"][0]) if loops else None
         ctx.check(outer is not None and wa[-1]["sp"][0] > outer["sp"][1], RT, "compressor::trailer-after-all-blocks", c["file"],
